@@ -34,6 +34,10 @@ type Case struct {
 	// capacity need not be a whole number of frames; the view is probed at every (channel, index)
 	// that exists in the parent.
 	GrownSrc int `json:"grownSrc,omitempty"`
+	// Pre > 0: views were taken (and read through) before the parent window was cut:
+	// 1 = of the root, every channel; 2 = of an intermediate window [A/2,Kr) from which the
+	// parent is then sliced. The parent's own views must address the parent all the same.
+	Pre int `json:"pre,omitempty"`
 }
 
 var names = kit.BuiltinNames()
@@ -76,11 +80,27 @@ func Check(c *Case) (res kit.Result) {
 		return
 	}
 	C := c.C
-	if c.Fix < 0 || c.Fix > 2 {
+	if c.Fix < 0 || c.Fix == 3 || c.Fix > 1<<12 {
 		return
 	}
 	root, parent := kit.AnyRootWindow(c.T, C, c.Kr, c.A, c.B, 0, c.Fix)
 	model := root.Snap()
+	if c.Pre < 0 || c.Pre > 2 {
+		return
+	}
+	if c.Pre > 0 {
+		from, shift := root, 0
+		if c.Pre == 2 {
+			from, shift = root.Slice(c.A/2, c.Kr), c.A/2
+		}
+		for ch := 0; ch < C; ch++ {
+			if v := from.Channel(ch); v.Length() > 0 {
+				_ = v.Sample(0)
+			}
+		}
+		parent = from.Slice(c.A-shift, c.B-shift)
+		res.Class("viewsTakenBeforeTheParentWasSliced")
+	}
 	ph := parent.Hdr()
 	frames := c.B - c.A
 	var view kit.AnyChan
@@ -207,7 +227,7 @@ func Check(c *Case) (res kit.Result) {
 func FP(c *Case) uint64 {
 	h := kit.NewHasher()
 	h.Str(c.T)
-	h.Ints([]int{c.C, c.Kr, c.A, c.B, c.Ch, c.Fix, c.Grow, c.GrownSrc})
+	h.Ints([]int{c.C, c.Kr, c.A, c.B, c.Ch, c.Fix, c.Grow, c.GrownSrc, c.Pre})
 	h.Ints(c.Idx)
 	return h.Sum()
 }
@@ -216,7 +236,10 @@ func Gen(t *rapid.T) *Case {
 	c := &Case{T: rapid.SampledFrom(names).Draw(t, "type"), C: rapid.IntRange(1, 8).Draw(t, "channels")}
 	c.Kr, c.A, c.B = kit.GenWindow(t, "p", 2000)
 	c.Ch = rapid.IntRange(0, c.C-1).Draw(t, "ch")
-	c.Fix = rapid.IntRange(0, 2).Draw(t, "fix")
+	c.Fix = kit.GenFix(t, "fix", c.C)
+	if rapid.IntRange(0, 2).Draw(t, "preSel") == 0 {
+		c.Pre = rapid.IntRange(1, 2).Draw(t, "pre")
+	}
 	if c.C >= 2 && rapid.IntRange(0, 5).Draw(t, "grownSel") == 0 {
 		c.Kr, c.B = 0, 0
 		c.A = rapid.IntRange(0, c.C-1).Draw(t, "grownPre")
